@@ -6,7 +6,7 @@
  *       the object is re-started from the IV and absorbs D || D (positions 0..31, 32..63), counter 64.
  *   secp256k1_tagged_sha256(hash32, tag, taglen, msg, msglen):  the same, then msg[0..msglen) at positions
  *       64 .. 64+msglen, finalized at exactly 64 + msglen, hash32 = that digest; returns 1.
- *       A NULL hash32/tag/msg is reported through the illegal callback, returns 0, hashes nothing.
+ *       A NULL hash32/tag/msg is reported through the illegal callback (result then undefined per secp256k1.h).
  *   => hash32 = H(H(tag) || H(tag) || msg).  (A mutant that truncates msg beyond 1000 bytes - measured to
  *   pass all 317 tests - fails "finalized at 64 + msglen" and "every message byte is absorbed".) */
 #define HASH_SPEC_STREAM_CONTRACTS
@@ -64,8 +64,7 @@ void h_tagged_sha256(void) {
 
     __CPROVER_assert(g_error == 0, "C05 tagged_sha256: no error callback");
     if (!use_out || !use_tag || !use_msg) {
-        __CPROVER_assert(ret == 0 && g_illegal == 1, "C05 tagged_sha256: NULL argument is reported through the illegal callback, returns 0");
-        __CPROVER_assert(g_sfin_n == 0 && g_sw_hit == 0 && g_sw_started == 0, "C05 tagged_sha256: nothing is hashed on illegal arguments");
+        __CPROVER_assert(g_illegal >= 1, "C05 tagged_sha256: a NULL argument is reported through the illegal callback");   /* return value and outputs are then undefined (secp256k1.h) */
     } else {
         __CPROVER_assert(ret == 1 && g_illegal == 0, "C05 tagged_sha256: returns 1, no callback");
         __CPROVER_assert(g_sfin_n == 2 && g_sf_end0 == taglen, "C05 tagged_sha256: tag stream finalized at taglen, then one more finalization");
